@@ -173,3 +173,18 @@ def check_result(res, data, desc, rec, tag, max_bins=None, rng=None):
 
 
 PER_BIN_FIELDS = ["f", "r", "b", "L", "K", "navg", "O", "XX", "YY", "XY", "M2", "S2", "S12"]
+
+
+def attempt(rec, fn, what="analysis"):
+    """Run a library call.  ValueError = the configuration was rejected (plan validation:
+    C02's business) -> blocked; any other exception on admissible input is a violation of
+    whatever property is being checked (there is no result that could satisfy it)."""
+    try:
+        return fn()
+    except ValueError as e:
+        rec.blocked(f"{what} rejected: {str(e)[:70]}")
+    except SystemExit as e:
+        rec.violation("library-called-sys-exit", f"{what}: SystemExit({e.code})")
+    except Exception as e:
+        rec.violation(f"raises:{type(e).__name__}", f"{what} raised {type(e).__name__}: {e}")
+    return None
